@@ -19,6 +19,15 @@ def gen(rnd, tier):
         e = ("x10", code, rnd.choice([1, 2, 95, 223]), rnd.choice([1, 50, 223]))
         dcases.append({"b": D.encode(e) + rnd.choice([[], [97], [27], [0]]), "more": False, "tag": "x10-all-codes"})
         cases.append(D.stream_case([e], tag="x10-all-codes"))
+    # the X10 coordinate plane on a grid (phase drawn from the seed), each report followed by another byte / report in the
+    # same read: every (column, row) class, not only the edges, with the consumed width compared
+    step = 6 if tier == "quick" else 2
+    ox, oy = rnd.randrange(step), rnd.randrange(step)
+    for cx in range(1 + ox, 224, step):
+        for cy in range(1 + oy, 224, step):
+            e = ("x10", rnd.randrange(224), cx, cy)
+            tail = rnd.choice([[97], [113], D.encode(("x10", 0, 5, 5)), [27, 91, 65]])
+            dcases.append({"b": D.encode(e) + tail, "more": False, "tag": "x10-grid"})
     # huge codes / coordinates (saturation, never a panic)
     for code, x, y in [(2 ** 63, 1, 1), (10 ** 30, 10 ** 30, 10 ** 30), (256 + 35, 2 ** 64 + 5, 7), (0, 2 ** 63, 2 ** 63 - 1)]:
         dcases.append({"b": D.encode(("sgr", code, x, y, False)), "more": False, "tag": "sgr-huge"})
